@@ -71,8 +71,12 @@ def import_job(interp, c, case):
         "rule list")
     # ---- solver part: net rate equations for all states and global parameter values
     state = {s: c.real("s_" + s, lo=0, lo_strict=True) for s in C13gen.SPECIES}     # interior: every generated denominator is positive
-    glob = {g: c.real("g_" + g, lo=0, lo_strict=True) for g in C13gen.GLOBALS}
+    glob = {g: c.real("g_" + g, lo=0, lo_strict=True) for g in spec["globals"]}
     syms = dict(**{"s_" + k: v for k, v in state.items()}, **{"g_" + k: v for k, v in glob.items()})
+    missing = [g for g in glob if g not in M.get_params2index()]
+    if missing:
+        rep(False, "global parameters %s of the document are not parameters of the imported model" % missing, "global parameters", syms)
+        return
     for g, v in glob.items():
         M.params_values[M.get_params2index()[g]] = v
     itf = S.ns["ModelCSimInterface"](M)
